@@ -52,3 +52,39 @@ def match(prop, suite, reason, case, obs):
         if m and m(e.get("params", {}), suite, reason, case, obs):
             return "%s: %s" % (e.get("id"), e.get("what"))
     return None
+
+
+# ---- suite gen (C08/C09): appended by the owner of that suite -------------------------------------
+@matcher("gen-class")
+def _gen_class(params, suite, reason, case, obs):
+    """reason = '<what> class=<c1>+<c2>…' as printed by Pred/Gen.lean (the classes are the `Safe` components
+    of Model/GenEmit.lean that fail for the definition in the case line).  Matches when this entry's class is
+    the first one listed, every listed class is a recorded C09 class, <what> is one of the outcomes recorded
+    for the class, and (double check, independent of Lean) the definition text in the case matches idl_regex."""
+    import re as _re
+    if suite != "gen" or " class=" not in reason:
+        return False
+    what, cls = reason.rsplit(" class=", 1)
+    classes = cls.split("+")
+    known = {e.get("params", {}).get("class") for e in load()
+             if e.get("matcher") == "gen-class" and e.get("status") == "finding"}
+    if classes[0] != params.get("class") or not all(c in known for c in classes):
+        return False
+    if len(classes) == 1 and what not in params.get("outcomes", []):
+        return False
+    m = _re.search(r"\(src x([0-9a-f]*)", case)
+    if not m:
+        return False
+    try:
+        text = bytes.fromhex(m.group(1)).decode("utf8", "replace")
+    except ValueError:
+        return False
+    rx = params.get("idl_regex")
+    return bool(rx) and _re.search(rx, text, _re.S) is not None
+
+
+# ---- suite proxy (C18): appended by the owner of that suite ---------------------------------------
+@matcher("reason-in")
+def _reason_in(params, suite, reason, case, obs):
+    """the predicate's reason names the input class at the first divergence (see Pred/Proxy.lean)"""
+    return reason in params.get("reasons", []) and (params.get("suite") in (None, suite))
